@@ -298,6 +298,27 @@ func (c *Conn) FeedEOF() { c.feedErr(io.EOF, "closes") }
 //go:norace
 func (c *Conn) FireDeadline() { c.feedErr(timeoutErr{}, "deadline fires") }
 
+// ExpireIfDue is the clock-driven form of FireDeadline: the pending Read fails with a timeout only if the deadline that
+// is in force right now has been reached on the virtual clock (a re-armed deadline is honoured, as by a real socket).
+// It is a scheduling point either way. Reports whether a timeout was delivered.
+//
+//go:norace
+func (c *Conn) ExpireIfDue() bool {
+	s := active
+	if s != nil && s.aborting {
+		return false
+	}
+	if s != nil {
+		s.point(&plainOp{fmt.Sprintf("client%d clock check", c.ID)})
+	}
+	if c.closed || !c.parked || c.deadline.IsZero() || c.deadline.After(Now()) {
+		return false
+	}
+	c.qpush(connItem{err: timeoutErr{}})
+	raceReleaseMerge(unsafe.Pointer(&c.tokIn))
+	return true
+}
+
 //go:norace
 func (c *Conn) feedErr(e error, what string) {
 	s := active
